@@ -251,6 +251,7 @@ def unit_factor_axioms(is_unit):
     return ax
 
 
+UNIT_EXACT = [z3.RealVal(x) for x in ("1/2", "3/4", "1/1024", "1023/1024", "65535/65536")]
 UNIT_PRED = [None]  # predicate on z3 terms: "this factor lies in [0,1)"
 OPAQUE_MUL = [False]  # when set, symbolic*symbolic real products become a commutative uninterpreted function
 
@@ -268,6 +269,8 @@ def _f_mul(a, b):
             for t_, o_ in ((ra, rb), (rb, ra)):
                 if UNIT_PRED[0](t_):
                     explore.EXP.assume(z3.If(o_ > 0, z3.And(app >= 0, app < o_, z3.Implies(t_ == 0, app == 0)), z3.If(o_ < 0, z3.And(app <= 0, app > o_, z3.Implies(t_ == 0, app == 0)), app == 0)))
+                    for c_ in UNIT_EXACT:  # true facts that make the product exact for a few factor values (replayable models)
+                        explore.EXP.assume(z3.Implies(t_ == c_, app == o_ * c_))
         return app
     if _is_bool_like(a) and is_sym(a):
         return s_where(a, b, 0.0 if _is_float_like(b) else 0)
@@ -395,7 +398,7 @@ def s_div(a, b):
             raise Unsupported("symbolic / 0")
         if b == 1:
             return _real(a)
-        if isinstance(b, _pyfloat) and not isinstance(b, _pybool):
+        if isinstance(b, _pyfloat) and not isinstance(b, _pybool) and not FPMODE[0]:  # reals: keep the term linear (float32: a true division)
             return _real(a) * _real(Fraction(1) / Fraction(repr(b)))
     else:
         from . import explore
